@@ -410,6 +410,65 @@ def _inv(J):
     return [[cof[j][i] / D for j in range(3)] for i in range(3)]
 
 
+def facet_matrices(ctx, k, kind):
+    """Exact facet mass matrix and facet load vector of Lagrange elements on straight edges (2-D): the trace of
+    the nodal basis on an edge is the 1-D Lagrange basis on the edge's nodes, also on general convex
+    quadrilaterals (an edge is parametrised affinely).  Entrywise, DOFs matched by location."""
+    import skfem
+    rng = ctx.rng()
+    name, space, kdeg = [x for x in LAGRANGE[kind] if x[2] >= 1][k % len([x for x in LAGRANGE[kind] if x[2] >= 1])]
+    if kind == "quad":
+        mc = G.quad_mesh(rng, style=str(rng.choice(["distorted", "sheared", "tensor", "tri2quad"])))
+    else:
+        mc = G.tri_mesh(rng, n=int(rng.integers(5, 12)))
+    mesh = mc.mesh
+    if mesh.t.shape[1] > ctx.scale(30, 80):
+        raise Skip("mesh-too-large")
+    if not mc.affine_cells:
+        ctx.reached("non-affine-cells")
+    elem = getattr(skfem, name)
+    nf = mesh.facets.shape[1]
+    F = np.sort(rng.choice(nf, size=max(1, nf // 3), replace=False)).astype(np.int32)
+    fexp = rand_exps(rng, 2, kdeg, 1)[0]
+    fpoly = monomial_poly(fexp)
+    order = 2 * kdeg + 2
+    fb = skfem.FacetBasis(mesh, elem(), facets=F, intorder=order)
+    cb = skfem.CellBasis(mesh, elem())
+    DL = np.asarray(cb.doflocs)
+    N = cb.N
+    tol = 1e-9 * (float(np.abs(mesh.p).max()) + 1)
+    M = np.zeros((N, N))
+    b = np.zeros(N)
+    # 1-D Lagrange basis of degree kdeg on equispaced nodes of [0, 1]
+    nodes1 = [[Fraction(i, kdeg)] for i in range(kdeg + 1)]
+    l1 = LAG.exact_nodal_coeffs(nodes1, "P", kdeg)
+    mass1 = [[X.int_ref(X.pmul(l1[a], l1[c]), "cube") for c in range(kdeg + 1)] for a in range(kdeg + 1)]
+    for f in F:
+        v0, v1 = (frpoint(mesh.p[:, v]) for v in mesh.facets[:, f])
+        length = float(np.sqrt(float((v1[0] - v0[0]) ** 2 + (v1[1] - v0[1]) ** 2)))
+        g = []
+        for nd in nodes1:
+            xloc = np.array([float(v0[i] + nd[0] * (v1[i] - v0[i])) for i in range(2)])
+            hit = np.nonzero(np.abs(DL - xloc[:, None]).max(axis=0) < tol)[0]
+            if hit.size != 1:
+                raise Skip("dof-location-ambiguous")
+            g.append(int(hit[0]))
+        xs = [{(0,): v0[i], (1,): v1[i] - v0[i]} for i in range(2)]
+        xs = [{e: c for e, c in pp.items() if c} for pp in xs]
+        fs = X.pcompose(fpoly, xs, 1)
+        for a in range(kdeg + 1):
+            b[g[a]] += length * float(X.int_ref(X.pmul(fs, l1[a]), "cube"))
+            for c in range(kdeg + 1):
+                M[g[a], g[c]] += length * float(mass1[a][c])
+    Mh = skfem.BilinearForm(lambda u, v, w: u * v).assemble(fb).toarray()
+    bh = skfem.LinearForm(lambda v, w: poly_fn(fexp)(w) * v).assemble(fb)
+    tag = dict(elem=name, kind=kind, desc=mc.desc, facets=int(F.size))
+    ctx.close("mass-matrix-exact", Mh, M, rtol=1e-11, scale=float(np.abs(M).max()), mech=f"facet-mass:{name}", **tag)
+    ctx.close("load-vector-exact", bh, b, rtol=1e-11, scale=float(np.abs(b).max()) + 1e-300, mech=f"facet-load:{name}",
+              load=fexp, **tag)
+    ctx.nontrivial(kind, name, "facet-matrices", mc.desc.get("style"))
+
+
 # --------------------------------------------------------------- PoU sums
 def mass_sums(ctx, k, kind):
     import skfem
@@ -504,5 +563,7 @@ for kd, q, th in (("line", 6, 120), ("tri", 10, 300), ("quad", 10, 300), ("tet",
     FAMILIES.append(Family("mass-sum-" + kd, fam(mass_sums, kd), max(3, q // 2), th // 2))
 for kd, q, th in (("line", 4, 80), ("tri", 8, 240), ("quad", 8, 240), ("tet", 6, 120), ("hex", 6, 120)):
     FAMILIES.append(Family("facets-" + kd, fam(facet_functionals, kd), q, th))
+for kd, q, th in (("tri", 8, 160), ("quad", 10, 200)):
+    FAMILIES.append(Family("facet-matrices-" + kd, fam(facet_matrices, kd), q, th))
 for kd, q, th in (("line", 6, 60), ("tri", 10, 150), ("quad", 6, 90), ("tet", 6, 60), ("hex", 3, 30)):
     FAMILIES.append(Family("matrices-" + kd, fam(local_matrices, kd), q, th, budget={"quick": 40, "thorough": 600}))
